@@ -56,6 +56,8 @@ def run_plan(plan):
             res["faults"] = op.get("faults")
             ctx = dict(warm=res["start"] in ("buffers", "point"), degenerate=degenerate, check=check)
             tag(J.judge_result(res, ctx), i)
+            if plan.get("matrix"):
+                tag(judge_matrix_optimum(s, J, res, op), i)
             s.adopt(res)
             note(res)
         elif kind == "grid":
@@ -94,6 +96,36 @@ def run_plan(plan):
         cell=plan.get("cell"), draws=plan.get("draws"),
         outcomes=[r.get("outcome") for r in results][:4] if plan.get("matrix") else None,
     )
+
+
+def judge_matrix_optimum(s, J, res, op):
+    """C13 '... returns finite values meeting the optimality certificate' for the solvers whose
+    stopping value is not the subdifferential residual of the returned point (FISTA scores the
+    extrapolated point, PDCD_WS a primal-dual fixed point): a cold-started cell that claims
+    convergence on a convex, unconstrained-penalty problem must be within the C02 margin of
+    the witness optimum.  (Constrained penalties and warm starts are left to the known FISTA
+    findings of C02 / C05.)"""
+    if s.solver_name not in ("FISTA", "PDCD_WS") or res.get("exc") is not None or res.get("w") is None \
+            or not res.get("claimed") or res["start"] not in ("cold", "cold_buf"):
+        return []
+    try:
+        pr, w, b = J.split(res)
+    except Exception:
+        return []
+    if not pr.pen.convex or pr.pen.has_constraint or pr.pen.kind == "vec" or not pr.finite(w, b):
+        return []
+    if not (pr.loss.smooth or pr.loss.name in ("Pinball", "SqrtQuadratic")):
+        return []
+    tol = res["knobs"].get("tol", 1e-4)
+    try:
+        vs = judge_optimum(s, J, pr, res, w, b, tol, False, op)
+    except Exception:
+        return []
+    for v in vs:
+        v["prop"] = ["C13"]
+        v["oracle"] = "matrix_optimum"
+        v["sig"] = tuple(v["sig"][:3]) + ("claims_convergence_far_from_optimum",)
+    return vs
 
 
 def _final(results, J, s):
@@ -537,6 +569,63 @@ def judge_optimum(s, J, pr, res, w, b, tol, warm, op):
     return out
 
 
+def judge_library_alpha_max(s, J, pr, res):
+    """The library's own critical-strength helpers - ``penalty.alpha_max(gradient0)`` of L1,
+    L1_plus_L2, WeightedL1, MCPenalty, WeightedMCPenalty and ``utils.data._alpha_max_group_lasso``
+    - evaluated on the gradient at the null model (unpenalised part optimised by the reference
+    model) must return the reference critical value: "the value computed from the gradient at
+    the null model" is what the property's two clauses are stated about."""
+    out = []
+    if getattr(s, "_alpha_max_judged", False):
+        return out
+    s._alpha_max_judged = True
+    try:
+        base = B.rm_problem(s.data, s.family, dict(s.pargs, alpha=1.0), res["fi"])
+        amax, (w0, b0) = base.alpha_max()
+    except Exception:
+        return out
+    if not np.isfinite(amax) or amax <= 1e-12:
+        return out
+    g0, _ = base.grad(w0, b0)
+    lib = None
+    what = None
+    try:
+        if pr.pen.kind == "sep":
+            penalty = s.get_penalty()
+            if hasattr(penalty, "alpha_max"):
+                lib = float(penalty.alpha_max(np.ascontiguousarray(g0, dtype=float)))
+                what = s.pname + ".alpha_max"
+        elif pr.pen.kind == "group" and s.dname == "QuadraticGroup" and not res["fi"] \
+                and s.pname == "WeightedGroupL2" and not s.pargs.get("positive") \
+                and np.all(np.asarray(s.pargs["weights"], dtype=float) > 0):
+            from skglm.utils.data import _alpha_max_group_lasso
+            lib = float(_alpha_max_group_lasso(
+                np.asarray(s.data["X"], dtype=float), np.asarray(s.data["y"], dtype=float),
+                np.asarray(s.pargs["grp_indices"], dtype=np.int32),
+                np.asarray(s.pargs["grp_ptr"], dtype=np.int32),
+                np.asarray(s.pargs["weights"], dtype=float)))
+            what = "_alpha_max_group_lasso"
+    except Exception as e:
+        from .session import classify_exception
+        exc = classify_exception(e)
+        if exc.get("harness"):
+            raise
+        out.append(dict(prop=["C16"], oracle="library_alpha_max",
+                        sig=(s.pname, "alpha_max_helper_crash", exc["type"]), detail=dict(exc=exc),
+                        feat=J.feat(res, dict(exc_type=exc["type"]))))
+        return out
+    if lib is None:
+        return out
+    s.probe("library_alpha_max_compared")
+    if not np.isfinite(lib) or abs(lib - amax) > 1e-9 * (1 + abs(amax)):
+        out.append(dict(prop=["C16"], oracle="library_alpha_max",
+                        sig=(s.pname, "alpha_max_helper_differs_from_critical_value"),
+                        detail=dict(helper=what, returned=lib, critical=float(amax)),
+                        feat=J.feat(res, dict(helper=what, ratio=float(lib / amax) if amax else None,
+                                              l1_ratio=s.pargs.get("l1_ratio")))))
+    return out
+
+
 def judge_critical(s, J, pr, res, w, b, tol, claimed, plan):
     """C16: at alpha >= alpha_max(1 + 1e-9) a converged fit has exactly zero penalised
     coefficients and an optimal unpenalised part; slightly below, a non-zero coefficient."""
@@ -546,6 +635,7 @@ def judge_critical(s, J, pr, res, w, b, tol, claimed, plan):
                                                  "SCAD", "L0_5", "L2_3", "LogSumPenalty", "L2_05",
                                                  "BlockSCAD", "WeightedL1GroupL2"):
         return out
+    out.extend(judge_library_alpha_max(s, J, pr, res))
     if not claimed:
         # "returns ... the optimal unpenalised part": above the critical strength the whole
         # problem is the fit of the intercept, which every solver finishes within the ample
